@@ -454,11 +454,13 @@ class C19(Prop):
                               lambda: '(content_format A%d)' % r.choice(reg_values('CoapContentFormat')), lambda: '(content_type t%s)' % g.txt().hex(), lambda: '(key_id %s)' % b(), lambda: '(iv %s)' % b(),
                               lambda: '(partial_iv %s)' % b(), lambda: '(add_counter_signature %s)' % g.sig(2), lambda: '(value i%d %s)' % (r.choice([0, 1, 2, 6, 7, 8, 9, -1, -65536, -65537, 2**63 - 1, -2**63, 33]), v()), lambda: '(text_value t%s %s)' % (g.txt().hex(), v())],
             'CoseSignatureBuilder': [lambda: '(protected %s)' % hdr(), lambda: '(unprotected %s)' % hdr(), lambda: '(signature %s)' % b()],
-            'CoseSign1Builder': [lambda: '(protected %s)' % hdr(), lambda: '(unprotected %s)' % hdr(), lambda: '(payload %s)' % b(), lambda: '(signature %s)' % b(), lambda: '(create_signature %s echo)' % b(), lambda: '(try_create_signature %s (k b0102))' % b(), lambda: '(create_detached_signature %s %s echo)' % (b(), b())],
+            'CoseSign1Builder': [lambda: '(protected %s)' % hdr(), lambda: '(unprotected %s)' % hdr(), lambda: '(payload %s)' % b(), lambda: '(signature %s)' % b(), lambda: '(create_signature %s echo)' % b(), lambda: '(try_create_signature %s (k b0102))' % b(), lambda: '(create_detached_signature %s %s echo)' % (b(), b()),
+                                 lambda: '(try_create_signature %s (k b))' % b(), lambda: '(try_create_detached_signature %s %s (k b))' % (b(), b()), lambda: '(create_signature %s (k b))' % b()],
             'CoseSignBuilder': [lambda: '(protected %s)' % hdr(), lambda: '(unprotected %s)' % hdr(), lambda: '(payload %s)' % b(), lambda: '(add_signature %s)' % g.sig(1), lambda: '(add_created_signature %s %s echo)' % (g.sig(1), b()), lambda: '(try_add_created_signature %s %s (fail 4))' % (g.sig(1), b()),
                                 # the four creating adders with a signer that returns nothing / a constant, on a signature that already carries bytes
                                 # (informed round 12: an empty signer output fell back to the stale signature)
-                                lambda: '(try_add_created_signature (sig (ph - %s) %s bdeadbeef) %s %s)' % (E, E, b(), r.choice(['(k b)', '(k b01)', 'echo'])), lambda: '(add_created_signature (sig (ph - %s) %s bdeadbeef) %s (k b))' % (E, E, b())],
+                                lambda: '(try_add_created_signature (sig (ph - %s) %s bdeadbeef) %s %s)' % (E, E, b(), r.choice(['(k b)', '(k b01)', 'echo'])), lambda: '(add_created_signature (sig (ph - %s) %s bdeadbeef) %s (k b))' % (E, E, b()),
+                                lambda: '(try_add_detached_signature (sig (ph - %s) %s bdeadbeef) %s %s %s)' % (E, E, b(), b(), r.choice(['(k b)', '(k b01)', 'echo', '(fail 2)'])), lambda: '(add_detached_signature (sig (ph - %s) %s bdeadbeef) %s %s (k b))' % (E, E, b(), b())],
             'CoseMacBuilder': [lambda: '(protected %s)' % hdr(), lambda: '(unprotected %s)' % hdr(), lambda: '(payload %s)' % b(), lambda: '(tag %s)' % b(), lambda: '(add_recipient %s)' % g.rcp(1), lambda: '(create_tag %s echo)' % b()],
             'CoseMac0Builder': [lambda: '(protected %s)' % hdr(), lambda: '(unprotected %s)' % hdr(), lambda: '(payload %s)' % b(), lambda: '(tag %s)' % b(), lambda: '(try_create_tag %s (k b09))' % b(), lambda: '(try_create_tag %s (k b))' % b(), lambda: '(create_tag %s (k b))' % b()],
             'CoseRecipientBuilder': [lambda: '(protected %s)' % hdr(), lambda: '(unprotected %s)' % hdr(), lambda: '(ciphertext %s)' % b(), lambda: '(add_recipient %s)' % g.rcp(1), lambda: '(create_ciphertext %s %s %s cat)' % (r.choice(['EncRecipient', 'MacRecipient', 'RecRecipient', 'CoseEncrypt', 'CoseEncrypt0']), b(), b()),
